@@ -12,6 +12,15 @@ arguments.  After every observable operation the result is compared with a
 operation only: equivalence (both sides agree with the fresh object for the
 same inputs) and independence (what happened on the other side, or earlier on
 this side, leaves no trace) are both violations of that single comparison.
+
+Trio family: an original, a copy and a copy of that copy (all pairs of copy
+methods).  Besides calculations, objects are *mutated*: write(model.books) -
+monitored by provenance: every value found in an object's books must have been
+produced by that object's own solutions (overrides carry values ending in a
+per-object tag) - and from_dict of a new constant / formula in a free zone plus
+finish(), judged against a fresh model that replays this object's own
+structural operations only.  Workbooks of this family hold constant array
+formulas smaller than their range (padding values live in the copied arrays).
 """
 import copy
 import random
@@ -29,11 +38,16 @@ RULE = ('a case is (workbook description incl. circular ones, object kind '
         'model|function, copy method deepcopy|dill, copy point, interleaved '
         'history of <= 10 operations with their arguments); distinct = '
         'distinct (description, history); non-trivial = at least one '
-        'operation on each side was compared with a fresh object')
+        'operation on each side was compared with a fresh object; trio '
+        'cases: (description, two copy methods, history over three objects '
+        'incl. write(model.books) and from_dict extensions)')
 ASSUMPTIONS = [
     'the fresh object is built from the same description by the same load '
     'path and performs only the operation under comparison',
     'override targets within one operation are disjoint',
+    'a structurally extended object is compared with a fresh model that '
+    'received the same extensions (from_dict + finish) - the extension '
+    'mechanism itself is not judged',
 ]
 MODEL_OPS = ('calc', 'calc_x', 'calc_x', 'calc_o', 'calc_xo', 'refinish', 'compile',
              'write', 'to_dict', 'calc_x')
